@@ -510,19 +510,57 @@ def handler_sets(ck, prog, eng):
     around their port I/O (they are three implementations of one fault-handling contract)."""
     from ..interp import exc_canon
     sets = {}
+    prim_names = set(PRIMS + ('query_statusbyte',))
+
+    def self_calls(node):
+        for n in ast.walk(node):
+            if isinstance(n, ast.Call) and isinstance(n.func, ast.Attribute) and \
+                    isinstance(n.func.value, ast.Name) and n.func.value.id == 'self':
+                m = eng.cls.lookup(n.func.attr)
+                if m is not None and n.func.attr not in prim_names:
+                    yield m
+
+    io_memo = {}
+
+    def does_io(node, depth=0):
+        """port I/O directly or through private helpers of the class (not through a primitive)."""
+        if contains_call_attr(node, ('write', 'readline')):
+            return True
+        if depth > 6:
+            return False
+        for m in self_calls(node):
+            key = m.qualname
+            if key not in io_memo:
+                io_memo[key] = False
+                io_memo[key] = does_io(m.node, depth + 1)
+            if io_memo[key]:
+                return True
+        return False
+
+    def reachable(fn):
+        seen, todo = {fn.qualname: fn}, [fn]
+        while todo:
+            f = todo.pop()
+            for m in self_calls(f.node):
+                if m.qualname not in seen:
+                    seen[m.qualname] = m
+                    todo.append(m)
+        return list(seen.values())
+
     for name in PRIMS + ('query_statusbyte',):
         fn = eng.method(name)
-        it = Interp(prog)
-        it.stack.append(fn)
         caught = set()
-        for node in ast.walk(fn.node):
-            if isinstance(node, ast.Try) and contains_call_attr(node, ('write', 'readline')):
-                for h in node.handlers:
-                    if h.type is None:
-                        caught.add('BaseException')
-                        continue
-                    for t in it.handler_types(h.type):
-                        caught.add(exc_canon(it.exc_name(t)))
+        for f in reachable(fn):
+            it = Interp(prog)
+            it.stack.append(f)
+            for node in ast.walk(f.node):
+                if isinstance(node, ast.Try) and any(does_io(b) for b in node.body):
+                    for h in node.handlers:
+                        if h.type is None:
+                            caught.add('BaseException')
+                            continue
+                        for t in it.handler_types(h.type):
+                            caught.add(exc_canon(it.exc_name(t)))
         from ..interp import exc_is_subclass
         sets[name] = {c for c in caught if not any(
             d != c and exc_is_subclass(c, d) for d in caught)}
@@ -586,8 +624,10 @@ def run(ck, prog, tier):
     analyse(ck, prog, tier=tier)
     fx = os.path.join(VERIF, 'fixtures', 'c05_bad')
     ck2 = Check('C05', tier, fx, quiet=True)
+    from ..interp import suspended_gaps
     try:
-        analyse(ck2, Program(fx), fixture=True)
+        with suspended_gaps():
+            analyse(ck2, Program(fx), fixture=True)
     except AnalysisError as exc:
         raise AnalysisError('C05 fixture could not be analysed: %s' % exc)
     fired = {v['rule'] for v in ck2.violations}
